@@ -206,16 +206,95 @@ def check_bounds(ctx, db):
     ctx.require('R-BOUND wo loops', n, 3)
 
 
+SHARED = ('spine_normal', 'p2', 'p3', 't2', 'n2', 'p_next', 'len_prev', 'len_next', 'len_factor', 'len_required', 'bend_dir')
+SIB_RENAMES = (('path_offsets', 'offsets'), ('path_half_widths', 'half_widths'), ('center_radius', 'radius'))
+
+
+def shared_defs(f, centre):
+    """definitions of the look-ahead / bend-room variables inside the main spine loop, with the guard of compound updates"""
+    room = next((i for i in f.walk() if i.k == 'IfStmt' and 'len_required > len_prev' in norm(i.child('cond').text())), None)
+    if room is None:
+        raise AnalysisBroken('%s: bend-room test not found' % f.qn)
+    loop = next((a for a in room.ancestors() if a.k == 'ForStmt'), None)
+    if loop is None:
+        raise AnalysisBroken('%s: spine loop not found' % f.qn)
+    out = []
+    SHARED = globals()['SHARED'] + (centre,)
+
+    def ren(t):
+        t = norm(t)
+        for a, b in SIB_RENAMES:
+            t = re.sub(r'\b%s\b' % a, b, t)
+        return t
+    # single-definition temporaries of the loop are inlined, so hoisting a common sub-expression is not a difference
+    assigned = {_strip_casts(x.child('lhs')).n for x in loop.walk() if (is_assign(x) or x.k == 'CompoundAssignOperator') and _strip_casts(x.child('lhs')).k == 'DeclRefExpr'}
+    temps = {}
+    for v in loop.walk():
+        if v.k == 'VarDecl' and v.child('init') is not None and v.n not in SHARED and v.n not in assigned and v.parent is not None and v.parent.k == 'DeclStmt' and loop.child('init') is not v.parent:
+            temps[v.n] = ren(v.child('init').text()) if v.n not in temps else None
+
+    def inline(t):
+        for _ in range(3):
+            for k_, v_ in temps.items():
+                if v_ is not None:
+                    t = re.sub(r'(?<![\w.>])%s\b' % re.escape(k_), lambda m_: v_ if v_.startswith('(') else '(%s)' % v_, t)
+        return t
+    for x in loop.walk():
+        name = op = rhs = None
+        if x.k == 'VarDecl' and x.child('init') is not None and x.n in SHARED:
+            name, op, rhs = x.n, '=', x.child('init')
+        elif (is_assign(x) or x.k == 'CompoundAssignOperator') and _strip_casts(x.child('lhs')).k == 'DeclRefExpr' and _strip_casts(x.child('lhs')).n in SHARED:
+            name, op, rhs = _strip_casts(x.child('lhs')).n, x.op, x.child('rhs')
+        if name is None:
+            continue
+        r0 = _strip_casts(rhs)
+        if op == '=' and (r0.cv == 0 or r0.fv == 0) and r0.k != 'DeclRefExpr':
+            continue  # zero initialisers; to_polygons also clears bend_dir to skip the bend where element_center appends the corner
+        where = ''
+        if any(a is room for a in x.ancestors()):
+            where = 'room-else' if any(y is x for y in (room.child('else').walk() if room.child('else') is not None else [])) else 'room-then'
+        out.append((ren(name), op, inline(ren(rhs.text())), where))
+    cond = [ren(c) for c in re.split(r' \|\| ', norm(room.child('cond').text()).strip('()'))][:2]
+    return sorted(set(out)), cond, room
+
+
+def check_siblings(ctx, db):
+    """FlexPath::to_polygons (outline) and FlexPath::element_center (centre line of the same element)
+    share the look-ahead intersection and the bend-room bookkeeping; the two copies must agree."""
+    a = db.fn('gdstk::FlexPath::to_polygons')
+    b = db.fn('gdstk::FlexPath::element_center')
+    ctx.touch(a)
+    ctx.touch(b)
+    da, ca, ra = shared_defs(a, 'center_radius')
+    dbb, cb, rb = shared_defs(b, 'radius')
+    names = sorted({d[0] for d in da} | {d[0] for d in dbb})
+    n = 0
+    for nm in names:
+        xa = [d[1:] for d in da if d[0] == nm]
+        xb = [d[1:] for d in dbb if d[0] == nm]
+        n += 1
+        ctx.check(xa == xb, 'R-CLONE', 'to_polygons~element_center/%s' % nm, ra.loc(), '`%s` is computed identically in both copies (%d definitions)' % (nm, len(xa)),
+                  '`%s` differs between the outline and the centre-line copy of the same computation: to_polygons %s vs element_center %s' % (nm, xa, xb))
+    ctx.check(ca == cb, 'R-CLONE', 'to_polygons~element_center/room-test', ra.loc(), 'both copies refuse the bend when it needs more than the previous or the next straight length', 'room tests differ: %s vs %s' % (ca, cb))
+    ctx.require('R-CLONE shared look-ahead/bend variables', n, 10)
+    # the consumed length is deducted exactly in the branch that places the bend
+    for f, defs in ((a, da), (b, dbb)):
+        upd = [d for d in defs if d[0] == 'len_next' and d[1] == '-=']
+        ctx.check(upd == [('len_next', '-=', 'len_required', 'room-else')], 'R-DEP', '%s/bend-consumes-length' % f.qn.replace('gdstk::', ''), f.loc(), 'when a bend is placed the straight length it uses is deducted from what the next corner sees',
+                  'the length consumed by a placed bend is not deducted from the following section: %s' % upd)
+
+
 def run(ctx):
     db = ctx.db
     check_bookkeeping(ctx, db)
     check_units(ctx, db)
     check_enums(ctx, db)
     check_bounds(ctx, db)
+    check_siblings(ctx, db)
 
 
 MANIFEST = dict(
-    text='Decides structural necessary conditions of FlexPath consistency on every path: every call that makes the spine grow (the appending Curve methods are discovered by closure over curve.cpp) is followed by fill_offsets_and_widths, which gives every element exactly the missing number of entries with the width halved; the four init overloads add one point and one entry per element; remove_overlapping_points removes the same index from the spine and from every element and advances only otherwise; GDSII WIDTH is twice and OASIS half-width exactly the stored half-width of entry 0 with the centre line from element_center after overlap removal; all End/Join/Bend enumerators are handled at both ends/sides in to_polygons and the PATHTYPE table equals RobustPath\'s; loops over width/offset entries are bounded by the spine count. The outline geometry (joins, bends, caps) is not decided.',
+    text='Decides structural necessary conditions of FlexPath consistency on every path: every call that makes the spine grow (the appending Curve methods are discovered by closure over curve.cpp) is followed by fill_offsets_and_widths, which gives every element exactly the missing number of entries with the width halved; the four init overloads add one point and one entry per element; remove_overlapping_points removes the same index from the spine and from every element and advances only otherwise; GDSII WIDTH is twice and OASIS half-width exactly the stored half-width of entry 0 with the centre line from element_center after overlap removal; all End/Join/Bend enumerators are handled at both ends/sides in to_polygons and the PATHTYPE table equals RobustPath\'s; loops over width/offset entries are bounded by the spine count; the look-ahead intersection and the bend-room bookkeeping (previous/next straight length, required length, deduction when a bend is placed) are identical in to_polygons and element_center. The outline geometry (joins, bends, caps) is not decided.',
     note='Trusted: clang front end, gx, sa rules; Curve internals are C15\'s subject.',
-    technique='post-dominance pairing over the CFG with a discovered trigger set + unit/shape rules + enum coverage + sibling tables',
+    technique='post-dominance pairing over the CFG with a discovered trigger set + unit/shape rules + enum coverage + sibling tables + sibling-definition comparison of the shared look-ahead/bend computation',
     design='§4 C07')
